@@ -1,6 +1,6 @@
 CONSTANTS
   Dev = {"D_sign_into_skips_zone"}
-  MaxK = 1
+  MaxK = 0
   Thorough = FALSE
 SPECIFICATION Spec
 INVARIANT DoneMatchesOracle
